@@ -476,12 +476,16 @@ impl BuildJob<'_> {
             None,
         );
         let state = ptx.commit().map_err(RedoError::opaque_error)?;
+        let lock_fid = self.lock.file_id().to_string();
         let job = server.start(self.t.into_string(), || {
             env::set_var(ENV_DEPTH, {
                 let mut depth = state.env().depth().to_string();
                 depth.push_str("  ");
                 depth
             });
+            // We keep holding the target's lock while redo-unlocked works:
+            // a dependency that asks for the target again is a cycle.
+            cycles::add(lock_fid);
             if unsafe { signal::signal(Signal::SIGPIPE, SigHandler::SigDfl) }.is_err() {
                 return EXIT_FAILURE;
             }
